@@ -380,6 +380,7 @@ local int	inlAddLabel		(void);
 local void	inlAddLocalDecls	(Foam, Foam *);
 local void	inlGetTypeFrDecl	(Foam decl, FoamTag *, int *);
 local Bool	inlUseParam		(Foam, int);
+local Bool	inlReadsStorage		(Foam);
 local Foam	inlFoamEnvElt		(Foam);
 
 local void	inlSimplifyDDef		(Foam);
@@ -3094,8 +3095,46 @@ inlUseParam(Foam param, int count)
 	 */
 	if (inlIsSideEffecting(param))
 		return false;
-	else
+	/*
+	 * Substituting the argument moves its evaluation to the place of
+	 * use in the inlined body; the body may have updated the storage
+	 * it reads by then (as for non-local variables, above).
+	 */
+	if (inlReadsStorage(param))
+		return false;
+	return true;
+}
+
+/*
+ * Check whether the value of an expression depends on storage that the
+ * inlined body can update: an element of a record, array or environment,
+ * a non-local or fluid variable, or anything a call may look at.
+ */
+local Bool
+inlReadsStorage(Foam foam)
+{
+	Bool	reads = false;
+
+	switch (foamTag(foam)) {
+	  case FOAM_RElt:
+	  case FOAM_IRElt:
+	  case FOAM_TRElt:
+	  case FOAM_RRElt:
+	  case FOAM_AElt:
+	  case FOAM_EElt:
+	  case FOAM_Lex:
+	  case FOAM_Glo:
+	  case FOAM_Fluid:
+	  case FOAM_CCall:
+	  case FOAM_OCall:
+	  case FOAM_PCall:
 		return true;
+	  default:
+		break;
+	}
+	foamIter(foam, arg, { if (inlReadsStorage(*arg)) reads = true; });
+
+	return reads;
 }
 
 /*
